@@ -134,6 +134,14 @@ pub(crate) struct Env {
     /// Used for 'evaluate up to cursor'.
     pub(crate) stop_at_expr_id: Option<SyntaxId>,
 
+    /// If `stop_at_expr_id` is a `for` loop, stop as soon as we enter
+    /// its body, rather than when the loop has finished.
+    ///
+    /// 'Evaluate up to cursor' uses this to show the first value of
+    /// the loop variable. Evaluating toplevel expressions in a
+    /// session must run the whole loop.
+    pub(crate) stop_at_loop_entry: bool,
+
     /// Refuse to run code might modify the system, such as filesystem
     /// access or shell commands. This should allow us to run
     /// arbitrary code safely.
@@ -216,6 +224,7 @@ impl Env {
             stack_limit: None,
             enforce_sandbox: false,
             stop_at_expr_id: None,
+            stop_at_loop_entry: false,
             id_gen,
             vfs,
             initial_state: None,
